@@ -22,6 +22,8 @@ import (
 
 // SDPs (sprop sets included so that the demuxer/flv muxer are "ready")
 const SdpH264 = "v=0\r\no=- 0 0 IN IP4 127.0.0.1\r\ns=No Name\r\nc=IN IP4 127.0.0.1\r\nt=0 0\r\nm=video 0 RTP/AVP 96\r\na=rtpmap:96 H264/90000\r\na=fmtp:96 packetization-mode=1; sprop-parameter-sets=Z2QAH6zZQFAFuhAAAAMAEAAAAwPI8YMZYA==,aO+8sA==; profile-level-id=64001F\r\na=control:streamid=0\r\nm=audio 0 RTP/AVP 97\r\na=rtpmap:97 MPEG4-GENERIC/44100/2\r\na=fmtp:97 profile-level-id=1;mode=AAC-hbr;sizelength=13;indexlength=3;indexdeltalength=3; config=121056E500\r\na=control:streamid=1\r\n"
+// SdpH264NoSprop: the parameter sets come in band only (the stream's own depacketizer adopts and decodes them)
+const SdpH264NoSprop = "v=0\r\no=- 0 0 IN IP4 127.0.0.1\r\ns=No Name\r\nc=IN IP4 127.0.0.1\r\nt=0 0\r\nm=video 0 RTP/AVP 96\r\na=rtpmap:96 H264/90000\r\na=fmtp:96 packetization-mode=1\r\na=control:streamid=0\r\nm=audio 0 RTP/AVP 97\r\na=rtpmap:97 MPEG4-GENERIC/44100/2\r\na=fmtp:97 profile-level-id=1;mode=AAC-hbr;sizelength=13;indexlength=3;indexdeltalength=3; config=121056E500\r\na=control:streamid=1\r\n"
 const SdpH265 = "v=0\r\no=- 0 0 IN IP4 127.0.0.1\r\ns=No Name\r\nc=IN IP4 127.0.0.1\r\nt=0 0\r\nm=video 0 RTP/AVP 96\r\na=rtpmap:96 H265/90000\r\na=control:streamid=0\r\n"
 
 // Kind of a generated packet (what its payload looks like to the cache classifier)
@@ -55,6 +57,13 @@ func MkPkt(uid uint32, k Kind, hevc bool, extra int) *rtp.Packet {
 	fill := make([]byte, extra)
 	for i := range fill {
 		fill[i] = byte(uid) + byte(i)
+	}
+	if extra >= 8 {
+		// bodies that look like escaped NAL payloads (emulation-prevention sequences 00 00 03 xx):
+		// code that parses or normalises a unit must not do it in the published buffer
+		for i := range fill {
+			fill[i] = [4]byte{0, 0, 3, byte(uid) & 3}[i%4]
+		}
 	}
 	body := append(append([]byte{}, fill...), u...)
 	nal := func(t264 byte, t265 byte) []byte {
@@ -276,9 +285,15 @@ type World struct {
 	nextID uint32
 }
 
-func NewWorld(hevc, cacheGop bool) *World {
+func NewWorld(hevc, cacheGop bool) *World { return NewWorldSdp(hevc, cacheGop, false) }
+
+// NewWorldSdp: noSprop selects, for H.264, an SDP without sprop-parameter-sets (the H.265 SDP never has them)
+func NewWorldSdp(hevc, cacheGop, noSprop bool) *World {
 	config.VerifSetCacheGop(cacheGop)
 	sdp := SdpH264
+	if noSprop {
+		sdp = SdpH264NoSprop
+	}
 	if hevc {
 		sdp = SdpH265
 	}
@@ -438,9 +453,24 @@ type gate struct {
 	once    sync.Once
 }
 
+// demuxPops counts the passes of every stream's own RTP demuxer through its queue pop (schedule
+// point rtpdemuxer.beforePop): scripts use it to let the stream's remuxing side catch up with the
+// publisher before a stalled consumer is resumed (what the remuxers do to a packet matters to C01)
+var demuxPops int64
+
+func countPoint(point string) {
+	if point == "rtpdemuxer.beforePop" {
+		atomic.AddInt64(&demuxPops, 1)
+	}
+}
+
+// InstallCounters installs the counting handler alone (script runs; InstallGates replaces it)
+func InstallCounters() { verifhook.Set(func(point string, id uint32) { countPoint(point) }) }
+
 func InstallGates() *Gates {
 	g := &Gates{armed: map[string]*gate{}, hits: map[string]int{}}
 	verifhook.Set(func(point string, id uint32) {
+		countPoint(point)
 		g.mu.Lock()
 		g.hits[point]++
 		gt := g.armed[point]
@@ -458,7 +488,7 @@ func InstallGates() *Gates {
 	return g
 }
 
-func (g *Gates) Uninstall() { verifhook.Set(nil) }
+func (g *Gates) Uninstall() { InstallCounters() }
 
 // Arm parks the next goroutine reaching point (with this id, 0 = any) until Release.
 func (g *Gates) Arm(point string, id uint32) *gate {
